@@ -1566,7 +1566,8 @@ theorem gloop_stable {α : Type} (cfg : Cfg) (hI : cfg.InflateOk) (B : Body α) 
               simp only [Prod.mk.injEq] at h
               cases h.2
 
-/-- `Reader::read_until_image_data` as a function of the result of its loop -/
+/-- `Reader::read_until_image_data` as a function of the result of its loop (reservation first, then
+    `bpp_in_prediction`, then the installation of the new sub-frame; a refusal ends the reader) -/
 def untilPost (t : TCfg) (out : R × Except Res Unit) : R × Except Res Unit :=
   match out with
   | (r', .error e) => (r', .error e)
@@ -1574,12 +1575,12 @@ def untilPost (t : TCfg) (out : R × Except Res Unit) : R × Except Res Unit :=
     match infoOf r' with
     | none => (r', .error (.panic "info().unwrap()"))
     | some i =>
-      match bppFromUsize (bytesPerPixel i.color i.depth) with
-      | none => (r', .error (.panic "unreachable!(bpp) (common.rs:846)"))
-      | some bpp =>
-        match reserveBytes { r' with sub := Sub.new i, bpp := bpp, ub := UB.new } (outLineSize t i r'.flags (Sub.new i).width) with
-        | .error e => ({ r' with sub := Sub.new i, bpp := bpp, ub := UB.new }, .error e)
-        | .ok r3 => (r3, .ok ())
+      match reserveBytes r' (outLineSize t i r'.flags (Sub.new i).width) with
+      | .error e => ({ r' with sub := { r'.sub with cur := none, caf := true }, remaining := 0 }, .error e)
+      | .ok r3 =>
+        match bppFromUsize (bytesPerPixel i.color i.depth) with
+        | none => (r3, .error (.panic "unreachable!(bpp) (common.rs:846)"))
+        | some bpp => ({ r3 with sub := Sub.new i, bpp := bpp, ub := UB.new }, .ok ())
 
 theorem readUntilImageData_post (cfg : Cfg) (t : TCfg) (x : R) :
     readUntilImageData cfg t x = untilPost t (rdReadUntilImageData cfg (fuelOf x) x) := by
@@ -1588,18 +1589,7 @@ theorem readUntilImageData_post (cfg : Cfg) (t : TCfg) (x : R) :
   | mk r' res =>
     cases res with
     | error e => rfl
-    | ok u =>
-      simp only
-      cases infoOf r' with
-      | none => rfl
-      | some i =>
-        simp only
-        cases bppFromUsize (bytesPerPixel i.color i.depth) with
-        | none => rfl
-        | some bpp =>
-          simp only
-          cases reserveBytes { r' with sub := Sub.new i, bpp := bpp, ub := UB.new }
-            (outLineSize t i r'.flags (Sub.new i).width) <;> rfl
+    | ok u => rfl
 
 theorem untilPost_eof {t : TCfg} {out : R × Except Res Unit} {r1 : R} {w : String}
     (h : untilPost t out = (r1, .error (.err .eof w))) : out = (r1, .error (.err .eof w)) := by
@@ -1614,14 +1604,12 @@ theorem untilPost_eof {t : TCfg} {out : R × Except Res Unit} {r1 : R} {w : Stri
     | none => rw [hi] at h; cases h
     | some i =>
       rw [hi] at h; simp only at h
-      cases hb : bppFromUsize (bytesPerPixel i.color i.depth) with
-      | none => rw [hb] at h; cases h
-      | some bpp =>
-        rw [hb] at h; simp only at h
-        rcases reserveBytes_cases ({ r' with sub := Sub.new i, bpp := bpp, ub := UB.new } : R)
-          (outLineSize t i r'.flags (Sub.new i).width) with hr | hr
-        · rw [hr] at h; cases h
-        · rw [hr] at h; cases h
+      rcases reserveBytes_cases r' (outLineSize t i r'.flags (Sub.new i).width) with hr | hr
+      · rw [hr] at h; cases h
+      · rw [hr] at h; simp only at h
+        cases hb : bppFromUsize (bytesPerPixel i.color i.depth) with
+        | none => rw [hb] at h; cases h
+        | some bpp => rw [hb] at h; cases h
 
 /-- the part of `next_frame_info` after the current frame was skipped (mod.rs:350-355) -/
 def nfiTail (cfg : Cfg) (t : TCfg) (x : R) : R × Res :=
